@@ -16,14 +16,20 @@ RULE = ('random pairs/triples of balanced reactions sharing a reactant (same gen
         'clauses: (a+b) vs ParallelReaction([a,b]); ((a+b)-b) vs a; k*a, a*k, a/k vs X scaled; +=,-=,*=,/= vs binary forms; copy/neg/backwards/add/sub/copy(basis) return new '
         'objects with unshared containers and leave operands bit-identical; item.X <-> set.X. Coverage additions: boundary conversions (X_a + X_b = 1, X_a = X_b, X = 1 scaled by k <= 1, a null a in '
         '(a+b)-b), a -= b against a - b for X_a > X_b, a + None / a - None, backwards(reactant, X=), basis setter refused on sets and items (counted), ReactionSystem.X <-> parts, sparse feeds and bare '
-        'SparseVector / ndarray / SparseArray feeds for the comparison. non-trivial = both reactions have X>0 and >=3 species; distinct = hash of the case')
+        'SparseVector / ndarray / SparseArray feeds for the comparison. Third round: every case also runs a HISTORY on one ParallelReaction / SeriesReaction of three members (optionally inside a ReactionSystem): '
+        'handles are taken and kept (rs[i], rs[-i], iteration items, slices incl. steps / reversed, items, iteration items and slices of slices, items reached through the system) while the conversions are '
+        'written through every door (set.X = array / list / tuple / scalar, set.X[i], set.X[:], set.X *=,/=,+=,-=, set.X = set.X * k, set.X = set.X; the same on a held slice; system.X = [...], system.X[1][i]; '
+        'X, *=, /=, +=, -= on a held item; writes on copies of the set / a slice / an item, which must stay private); after every write the set, fresh items, all kept handles and the system must report the '
+        'conversions written (model: stand-alone reactions updated by X assignment and the binary forms), and at the end the set, one kept handle and the system act like the model. non-trivial = both reactions have X>0 and >=3 species; distinct = hash of the case')
 MIN_NONTRIVIAL = {'quick': 300, 'thorough': 10000}
 ASSUMPTIONS = ['feeds are made large enough that neither side is infeasible (X_a + X_b <= 0.9)']
 
 
 def required(tier):
     return ['add-vs-parallel', 'sub-inverse', 'scale', 'inplace', 'new-object', 'operands-unchanged', 'set-item-X', 'backwards', 'set-copy', 'reduce', 'sum-of-three', 'basis-setter', 'set+set', 'set-item-inplace', 'negated-operand',
-            'X:sum-to-one', 'X:equal', 'X:full-scaled', 'sub-inverse:null-a', 'isub-direct', 'backwards:X', 'system-X', 'feed:sparse', 'feed:sv', 'feed:nd', 'feed:sa', 'basis-setter:set-refused']
+            'X:sum-to-one', 'X:equal', 'X:full-scaled', 'sub-inverse:null-a', 'isub-direct', 'backwards:X', 'system-X', 'feed:sparse', 'feed:sv', 'feed:nd', 'feed:sa', 'basis-setter:set-refused',
+            'history', 'history:complete', 'history:whole-assign-with-held-handles', 'history:system-assign-with-held-handles', 'history:slice-assign', 'history:held-item', 'history:held-iter-item', 'history:held-slice',
+            'history:held-slice-item', 'history:held-slice-iter-item', 'history:held-slice-of-slice', 'history:held-system-item', 'history:item-inplace', 'history:copy-write', 'history:acts']
 
 
 def gen_case(rng):
@@ -66,7 +72,118 @@ def gen_case(rng):
             if i not in consumed and rng.random() < 0.5: feed[i] = 0.0
         case['sparse'] = True
     if len({d['basis'] for d in rx}) == 1 and rng.random() < 0.25: case['feed_kind'] = rng.choice(['sa', 'nd2']) if tagged else rng.choice(['sv', 'nd'])
+    case['hist'] = gen_history(rng)
     return case
+
+
+# ---- histories on one reaction set: handles (items, iteration items, slices, items / slices of slices, items reached through a ReactionSystem) are taken and KEPT while
+# the conversions are written through every door (whole-array / scalar / element / augmented assignment on the set, on a slice, on the enclosing system; X and in-place
+# arithmetic on a held item; writes on copies, which must stay private). The generator simulates the conversions so that every member stays within (0, 0.3].
+SLICES = [[0, 2, None], [1, 3, None], [None, 1, None], [1, None, None], [None, None, None], [None, None, 2], [None, None, -1], [0, 3, None], [-2, None, None], [None, -1, None], [2, None, None]]
+SUBSLICES = [[None, None, None], [None, 1, None], [1, None, None], [None, None, -1], [-1, None, None]]
+NSET = 3
+
+
+def gen_history(rng):
+    n = NSET
+    def xv(): return round(rng.uniform(0.01, 0.28), 4)
+    X0 = [xv() for _ in range(n)]
+    xm = list(X0)
+    system = rng.random() < 0.3
+    ops, items, slices = [], [], []      # items: model index of each held item; slices: model indices of each held slice
+
+    def take(kind=None):
+        kinds = ['item', 'item', 'neg-item', 'iter', 'slice', 'slice', 'slice-item', 'slice-slice', 'slice-iter'] + (['system-item'] if system else [])
+        kind = kind or rng.choice(kinds)
+        if kind in ('slice-item', 'slice-slice', 'slice-iter') and not slices: kind = 'slice'
+        if kind == 'item': i = rng.randrange(n); ops.append(['take-item', i]); items.append(i)
+        elif kind == 'neg-item': i = rng.randrange(1, n + 1); ops.append(['take-item', -i]); items.append(n - i)
+        elif kind == 'system-item': i = rng.randrange(n); ops.append(['take-system-item', i]); items.append(i)
+        elif kind == 'iter': ops.append(['take-iter']); items.extend(range(n))
+        elif kind == 'slice': spec = rng.choice(SLICES); ops.append(['take-slice', spec]); slices.append(list(range(n))[slice(*spec)])
+        elif kind == 'slice-item':
+            s_ = rng.randrange(len(slices)); j = rng.randrange(len(slices[s_])); ops.append(['take-slice-item', s_, j]); items.append(slices[s_][j])
+        elif kind == 'slice-iter':
+            s_ = rng.randrange(len(slices)); ops.append(['take-slice-iter', s_]); items.extend(slices[s_])
+        else:
+            s_ = rng.randrange(len(slices)); spec = rng.choice(SUBSLICES); idxs = slices[s_][slice(*spec)]
+            if not idxs: spec = [None, None, None]; idxs = list(slices[s_])
+            ops.append(['take-slice-slice', s_, spec]); slices.append(idxs)
+
+    def assign(idxs):
+        form = rng.choice(['array', 'list', 'tuple', 'scalar'])
+        if form == 'scalar':
+            v = xv(); vals = v
+            for i in idxs: xm[i] = v
+        else:
+            vals = [xv() for _ in idxs]
+            for i, v in zip(idxs, vals): xm[i] = v
+        return form, vals
+
+    def iop(idxs):
+        op = rng.choice(['imul', 'itruediv', 'iadd', 'isub'])
+        hi = max(xm[i] for i in idxs); lo = min(xm[i] for i in idxs)
+        if op == 'imul':
+            k = rng.choice([0.5, 0.8, 1.25, 2.0])
+            if hi * k > 0.3: k = 0.5
+        elif op == 'itruediv':
+            k = rng.choice([0.5, 0.8, 1.25, 2.0])
+            if hi / k > 0.3: k = 2.0
+        elif op == 'iadd':
+            k = round(rng.uniform(0.005, 0.03), 4)
+            if hi + k > 0.3: op = 'isub'
+        if op == 'isub': k = round(lo * rng.choice([0.25, 0.5]), 6)
+        for i in idxs: xm[i] = {'imul': xm[i] * k, 'itruediv': xm[i] / k, 'iadd': xm[i] + k, 'isub': xm[i] - k}[op]
+        return op, k
+
+    def write():
+        w = rng.choice(['set-assign'] * 3 + ['slice-assign'] * 2 + (['system-assign'] * 2 + ['system-elem'] if system else []) + ['set-elem', 'set-fullslice', 'set-iop', 'set-iop', 'set-rebind', 'set-self',
+                        'slice-elem', 'slice-iop', 'item-X', 'item-X', 'item-iop', 'item-iop', 'item-iadd', 'item-isub', 'copy-write'])
+        if w.startswith('slice') and not slices: take('slice')
+        if w.startswith('item') and not items: take('item')
+        if w == 'set-assign': ops.append(['set-assign', *assign(range(n))])
+        elif w == 'system-assign': ops.append(['system-assign', xv(), *assign(range(n))])
+        elif w == 'system-elem': i = rng.randrange(n); v = xv(); xm[i] = v; ops.append(['system-elem', i, v])
+        elif w == 'set-elem': i = rng.randrange(n); v = xv(); xm[i] = v; ops.append(['set-elem', i, v])
+        elif w == 'set-fullslice': vals = [xv() for _ in range(n)]; xm[:] = vals; ops.append(['set-fullslice', vals])
+        elif w == 'set-iop': ops.append(['set-iop', *iop(range(n))])
+        elif w == 'set-rebind':
+            k = rng.choice([0.5, 0.8, 1.25])
+            if max(xm) * k > 0.3: k = 0.5
+            xm[:] = [x * k for x in xm]; ops.append(['set-rebind', k])
+        elif w == 'set-self': ops.append(['set-self'])
+        elif w == 'slice-assign': s_ = rng.randrange(len(slices)); ops.append(['slice-assign', s_, *assign(slices[s_])])
+        elif w == 'slice-elem':
+            s_ = rng.randrange(len(slices)); j = rng.randrange(len(slices[s_])); v = xv(); xm[slices[s_][j]] = v; ops.append(['slice-elem', s_, j, v])
+        elif w == 'slice-iop': s_ = rng.randrange(len(slices)); ops.append(['slice-iop', s_, *iop(slices[s_])])
+        elif w == 'item-X': h_ = rng.randrange(len(items)); v = xv(); xm[items[h_]] = v; ops.append(['item-X', h_, v])
+        elif w == 'item-iop':
+            h_ = rng.randrange(len(items)); i = items[h_]; op = rng.choice(['imul', 'itruediv']); k = rng.choice([0.5, 0.8, 1.25, 2.0])
+            if op == 'imul' and xm[i] * k > 0.3: k = 0.5
+            if op == 'itruediv' and xm[i] / k > 0.3: k = 2.0
+            xm[i] = xm[i] * k if op == 'imul' else xm[i] / k; ops.append(['item-iop', h_, op, k])
+        elif w in ('item-iadd', 'item-isub'):
+            h_ = rng.randrange(len(items)); i = items[h_]; o = rng.randrange(n)
+            if w == 'item-iadd':
+                ov = round(rng.uniform(0.01, 0.05), 4)
+                if xm[i] + ov > 0.3: w = 'item-isub'
+            if w == 'item-isub': ov = round(xm[i] * rng.choice([0.25, 0.5]), 6)
+            if ov > 0:
+                xm[i] = xm[i] + ov if w == 'item-iadd' else xm[i] - ov; ops.append([w, h_, o, ov])
+            else:
+                v = xv(); xm[i] = v; ops.append(['item-X', h_, v])
+        else:
+            what = rng.choice(['set', 'slice', 'item'])
+            if what == 'slice' and not slices: what = 'set'
+            if what == 'item' and not items: what = 'set'
+            ref = 0 if what == 'set' else rng.randrange(len(slices) if what == 'slice' else len(items))
+            ops.append(['copy-write', what, ref, rng.choice(['array', 'scalar', 'elem']), xv()])
+
+    for _ in range(rng.randrange(1, 4)): take()
+    for _ in range(rng.randrange(4, 9)):
+        if rng.random() < 0.25: take()
+        write()
+    return {'cls': rng.choice(['ParallelReaction', 'ParallelReaction', 'SeriesReaction']), 'system': system, 'X0': X0, 'ops': ops, 'pick': rng.randrange(1000)}
 
 
 def snap(rx):
@@ -482,7 +599,149 @@ def run_case(case, rec):
             rsys[1][1].X = 0.011; rsys[0].X = 0.012; rsys[2].X[0] = 0.013
             got = [rsys.X[0], list(rsys.X[1]), list(rsys.X[2])]
             rec.check(got == [0.012, [0.06, 0.011], [0.013, 0.09]], 'set-item-X', 'parts-to-system', f'X written on the parts / items not visible in ReactionSystem.X: {got}')
+    # ---- third round: histories with kept handles (items / slices / system) around whole-array, scalar, element and augmented conversion writes
+    if case.get('hist'): run_history(case, rec, th, (a, bb, cc), tg, scale, guarded)
     if all(d['X'] > 0 and len(d['st']) >= 3 for d in case['rx'][:2]): rec.mark_nontrivial(case_hash(case))
+
+
+def run_history(case, rec, th, members, tg, scale, guarded):
+    """one reaction set, handles taken and kept, conversions written through every door; after every write the set, fresh items, every held handle (and the enclosing
+    system) must report the conversions written (the model is a list of stand-alone reactions updated by X assignment and the BINARY operator forms only). The first
+    disagreement ends the history (what follows would only repeat it)."""
+    h = case['hist']; cn = h['cls']; cls = getattr(tmo, cn); n = NSET
+    mem = [m.copy() for m in members]
+    for m, x in zip(mem, h['X0']): m.X = x
+    M = [m.copy() for m in mem]
+    rs = guarded('set-item-X', lambda: cls(mem))
+    if rs is None: return
+    rsys = None; single = [members[0].copy()]
+    if h['system']:
+        rsys = guarded('set-item-X', lambda: tmo.ReactionSystem(members[0].copy(), rs))
+        if rsys is None: return
+    rec.hit('history')
+    items, slices = [], []        # [kind, object, model index] / [kind, object, model indices]
+    held = [0]
+
+    def close(x, y): return abs(x - y) <= 4e-16 * max(abs(y), 1e-300)
+
+    def agree(obj, idxs):
+        got = np.asarray(obj.X, dtype=float).ravel().tolist()
+        return len(got) == len(idxs) and all(close(g, M[i].X) for g, i in zip(got, idxs)), got
+
+    def checkpoint(writer):
+        exp = [m.X for m in M]
+        ok, got = agree(rs, range(n))
+        if not rec.check(ok, 'set-item-X', f'history/{writer}->set', f'[{cn}] after {writer} the set reports X={got} but the conversions written are {exp}'): return False
+        fx = [rs[i].X for i in range(n)]
+        if not rec.check(all(close(x, e) for x, e in zip(fx, exp)), 'set-item-X', f'history/{writer}->fresh-item', f'[{cn}] after {writer} freshly indexed items report X={fx}; the set reports {got}'): return False
+        for kind, obj, i in items:
+            x = obj.X
+            if not rec.check(close(x, exp[i]), 'set-item-X', f'history/{writer}->{kind}',
+                             f'[{cn}] after {writer} a {kind} (reaction {i} of the set, obtained earlier and kept) reports X={x!r}; the set reports {got}'): return False
+        for kind, obj, idxs in slices:
+            ok, sg = agree(obj, idxs)
+            if not rec.check(ok, 'set-item-X', f'history/{writer}->{kind}',
+                             f'[{cn}] after {writer} a {kind} (reactions {idxs} of the set, obtained earlier and kept) reports X={sg}; the set reports {got}'): return False
+        if rsys is not None:
+            sx = rsys.X
+            ok = close(float(sx[0]), single[0].X) and len(sx) == 2 and np.asarray(sx[1], dtype=float).ravel().tolist() == got
+            if not rec.check(ok, 'set-item-X', f'history/{writer}->system-X', f'[{cn}] after {writer} the enclosing ReactionSystem reports X={[np.asarray(i).tolist() for i in sx]}; the set reports {got}, the single reaction {single[0].X}'): return False
+        return True
+
+    def arg(form, vals):
+        return np.array(vals) if form == 'array' else list(vals) if form == 'list' else tuple(vals) if form == 'tuple' else vals
+
+    def fk(form): return 'scalar' if form == 'scalar' else 'sequence'          # array / list / tuple share a key (the form is in the case)
+
+    def model_assign(idxs, form, vals):
+        for j, i in enumerate(idxs): M[i].X = vals if form == 'scalar' else vals[j]
+
+    def model_iop(idxs, op, k):
+        for i in idxs: M[i].X = {'imul': M[i].X * k, 'itruediv': M[i].X / k, 'iadd': M[i].X + k, 'isub': M[i].X - k}[op]
+
+    def do_iop(obj, op, k):
+        # augmented assignment on the property: getter, in-place array operation, setter with the same array
+        if op == 'imul': obj.X *= k
+        elif op == 'itruediv': obj.X /= k
+        elif op == 'iadd': obj.X += k
+        else: obj.X -= k
+
+    def do(op):
+        name = op[0]
+        if name == 'take-item': items.append(['held-item', rs[op[1]], op[1] % n]); rec.hit('history:held-item'); return ''
+        if name == 'take-system-item': items.append(['held-system-item', rsys[1][op[1]], op[1]]); rec.hit('history:held-system-item'); return ''
+        if name == 'take-iter':
+            for i, it in enumerate(rs): items.append(['held-iter-item', it, i])
+            rec.hit('history:held-iter-item'); return ''
+        if name == 'take-slice': items_ = list(range(n))[slice(*op[1])]; slices.append(['held-slice', rs[slice(*op[1])], items_]); rec.hit('history:held-slice'); return ''
+        if name == 'take-slice-item': _, sl, idxs = slices[op[1]]; items.append(['held-slice-item', sl[op[2]], idxs[op[2]]]); rec.hit('history:held-slice-item'); return ''
+        if name == 'take-slice-iter':
+            _, sl, idxs = slices[op[1]]
+            for j, it in enumerate(sl): items.append(['held-slice-iter-item', it, idxs[j]])
+            rec.hit('history:held-slice-iter-item'); return ''
+        if name == 'take-slice-slice': _, sl, idxs = slices[op[1]]; slices.append(['held-slice-of-slice', sl[slice(*op[2])], idxs[slice(*op[2])]]); rec.hit('history:held-slice-of-slice'); return ''
+        if name == 'set-assign':
+            rs.X = arg(op[1], op[2]); model_assign(range(n), op[1], op[2])
+            if items or slices: rec.hit('history:whole-assign-with-held-handles')
+            return f'set-assign-{fk(op[1])}'
+        if name == 'system-assign':
+            rsys.X = [op[1], arg(op[2], op[3])]; single[0].X = op[1]; model_assign(range(n), op[2], op[3])
+            if items or slices: rec.hit('history:system-assign-with-held-handles')
+            return f'system-assign-{fk(op[2])}'
+        if name == 'system-elem': rsys.X[1][op[1]] = op[2]; M[op[1]].X = op[2]; return 'system-elem'
+        if name == 'set-elem': rs.X[op[1]] = op[2]; M[op[1]].X = op[2]; return 'set-elem'
+        if name == 'set-fullslice': rs.X[:] = np.array(op[1]); model_assign(range(n), 'array', op[1]); return 'set-fullslice'
+        if name == 'set-iop': do_iop(rs, op[1], op[2]); model_iop(range(n), op[1], op[2]); return f'set-{op[1]}'
+        if name == 'set-rebind': rs.X = rs.X * op[1]; model_iop(range(n), 'imul', op[1]); return 'set-rebind'
+        if name == 'set-self': rs.X = rs.X; return 'set-self'
+        if name == 'slice-assign':
+            kind, sl, idxs = slices[op[1]]; sl.X = arg(op[2], op[3]); model_assign(idxs, op[2], op[3]); rec.hit('history:slice-assign'); return f'{kind[5:]}-assign-{fk(op[2])}'
+        if name == 'slice-elem': kind, sl, idxs = slices[op[1]]; sl.X[op[2]] = op[3]; M[idxs[op[2]]].X = op[3]; return f'{kind[5:]}-elem'
+        if name == 'slice-iop': kind, sl, idxs = slices[op[1]]; do_iop(sl, op[2], op[3]); model_iop(idxs, op[2], op[3]); return f'{kind[5:]}-{op[2]}'
+        if name == 'item-X': kind, it, i = items[op[1]]; it.X = op[2]; M[i].X = op[2]; return f'{kind[5:]}-X'
+        if name == 'item-iop':
+            kind, it, i = items[op[1]]
+            r = it.__imul__(op[3]) if op[2] == 'imul' else it.__itruediv__(op[3])
+            M[i] = M[i] * op[3] if op[2] == 'imul' else M[i] / op[3]
+            rec.check(r is it, 'inplace', f'history/{kind[5:]}-{op[2]}/identity/{cn}', f'{op[2]} on a {kind} returned another object')
+            rec.hit('history:item-inplace'); return f'{kind[5:]}-{op[2]}'
+        if name in ('item-iadd', 'item-isub'):
+            kind, it, i = items[op[1]]; other = members[op[2]].copy(); other.X = op[3]; so = snap(other)
+            r = it.__iadd__(other) if name == 'item-iadd' else it.__isub__(other)
+            M[i] = M[i] + other if name == 'item-iadd' else M[i] - other
+            rec.check(r is it, 'inplace', f'history/{kind[5:]}-{name[5:]}/identity/{cn}', f'{name[5:]} on a {kind} returned another object')
+            rec.check(same_snap(snap(other), so), 'operands-unchanged', f'history/{kind[5:]}-{name[5:]}/right/{cn}', f'{name[5:]} on a {kind} changed its right operand')
+            rec.hit('history:item-inplace'); return f'{kind[5:]}-{name[5:]}'
+        if name == 'copy-write':
+            what, ref, form, v = op[1:]
+            tgt = rs if what == 'set' else slices[ref][1] if what == 'slice' else items[ref][1]
+            cp = tgt.copy()
+            if what == 'item': cp.X = v; cp *= 0.5
+            elif form == 'array': cp.X = np.full(len(cp.X), v)
+            elif form == 'scalar': cp.X = v
+            else: cp.X[0] = v
+            rec.hit('history:copy-write'); return f'copy-of-{what}-write'
+        raise RuntimeError(f'unknown history operation {name}')
+
+    for op in h['ops']:
+        w = guarded('set-item-X', lambda: do(op))
+        if w is None: return
+        if w and not checkpoint(w): rec.hit('history:ended-at-disagreement'); return
+    rec.hit('history:complete')
+    # the handles kept through the whole history act like the reactions the conversions written describe
+    def acts(what, obj, ref_fn):
+        lhs = guarded('set-item-X', lambda: apply(obj, case, th)); rhs = guarded('set-item-X', lambda: apply(ref_fn(), case, th))
+        if lhs is not None and rhs is not None:
+            rec.hit('history:acts')
+            d = differ(lhs, rhs, scale)
+            rec.check(not d, 'set-item-X', f'history/acts/{what}/{cn}/{tg}', f'after the history a {what} acts differently from the reaction(s) with the conversions written ({[m.X for m in M]}): {d[:4]}')
+    acts('set', rs, lambda: cls([m.copy() for m in M]))
+    handles = items + slices
+    if handles:
+        kind, obj, ix = handles[h['pick'] % len(handles)]
+        if isinstance(ix, list): acts(kind, obj, lambda: cls([M[i].copy() for i in ix]))
+        else: acts(kind, obj, lambda: M[ix].copy())
+    if rsys is not None: acts('system', rsys, lambda: tmo.ReactionSystem(single[0].copy(), cls([m.copy() for m in M])))
 
 
 def replay(case, rec):
